@@ -8,6 +8,8 @@ import (
 	"go/ast"
 	"go/types"
 	"sort"
+
+	"golang.org/x/tools/go/types/typeutil"
 )
 
 type CallGraph struct {
@@ -147,5 +149,134 @@ func (p *Prog) methodsOf(pkgShort, typeName string) []string {
 		}
 	}
 	sort.Strings(res)
+	return res
+}
+
+// fieldTypes resolves the concrete types stored in an interface-typed struct field by following
+// the constructor wiring (composite literals and assignments; parameters are followed to the
+// call sites of the constructor). nil = not resolvable (callers fall back to CHA).
+func (p *Prog) fieldTypes(fv *types.Var) []types.Type {
+	if p.fieldCache == nil {
+		p.fieldCache = map[*types.Var][]types.Type{}
+	}
+	if r, ok := p.fieldCache[fv]; ok {
+		return r
+	}
+	p.fieldCache[fv] = nil // cycle guard
+	var res []types.Type
+	okAll := true
+	add := func(t types.Type) {
+		for _, x := range res {
+			if types.Identical(x, t) {
+				return
+			}
+		}
+		res = append(res, t)
+	}
+	var resolveExpr func(fi *FuncInfo, e ast.Expr, depth int)
+	resolveExpr = func(fi *FuncInfo, e ast.Expr, depth int) {
+		info := fi.Pkg.TypesInfo
+		e = ast.Unparen(e)
+		tv, ok := info.Types[e]
+		if !ok {
+			okAll = false
+			return
+		}
+		if _, isIface := tv.Type.Underlying().(*types.Interface); !isIface {
+			if tv.IsNil() {
+				return
+			}
+			add(tv.Type)
+			return
+		}
+		// interface-typed expression: a parameter of the enclosing function?
+		if id, isId := e.(*ast.Ident); isId && depth < 4 {
+			o := info.Uses[id]
+			idx := -1
+			i := 0
+			for _, fld := range fi.Decl.Type.Params.List {
+				for _, nm := range fld.Names {
+					if info.Defs[nm] == o {
+						idx = i
+					}
+					i++
+				}
+			}
+			if idx >= 0 {
+				found := false
+				for _, caller := range p.Funcs {
+					if caller.Decl.Body == nil {
+						continue
+					}
+					ast.Inspect(caller.Decl.Body, func(x ast.Node) bool {
+						if c, isC := x.(*ast.CallExpr); isC && idx < len(c.Args) {
+							if fn, _ := typeutil.Callee(caller.Pkg.TypesInfo, c).(*types.Func); fn != nil && fkey(fn) == fi.Key {
+								found = true
+								resolveExpr(caller, c.Args[idx], depth+1)
+							}
+						}
+						return true
+					})
+				}
+				if !found {
+					okAll = false
+				}
+				return
+			}
+		}
+		okAll = false
+	}
+	for _, fi := range p.Funcs {
+		if fi.Decl.Body == nil {
+			continue
+		}
+		info := fi.Pkg.TypesInfo
+		ast.Inspect(fi.Decl.Body, func(x ast.Node) bool {
+			switch s := x.(type) {
+			case *ast.CompositeLit:
+				tv, ok := info.Types[s]
+				if !ok {
+					return true
+				}
+				t := tv.Type
+				if pt, isP := t.(*types.Pointer); isP {
+					t = pt.Elem()
+				}
+				st, ok := t.Underlying().(*types.Struct)
+				if !ok {
+					return true
+				}
+				fidx := -1
+				for i := 0; i < st.NumFields(); i++ {
+					if st.Field(i) == fv {
+						fidx = i
+					}
+				}
+				if fidx < 0 {
+					return true
+				}
+				for i, el := range s.Elts {
+					if kv, isKV := el.(*ast.KeyValueExpr); isKV {
+						if id, isId := kv.Key.(*ast.Ident); isId && id.Name == fv.Name() {
+							resolveExpr(fi, kv.Value, 0)
+						}
+					} else if i == fidx {
+						resolveExpr(fi, el, 0)
+					}
+				}
+			case *ast.AssignStmt:
+				for i, l := range s.Lhs {
+					if sel, isSel := l.(*ast.SelectorExpr); isSel && info.Uses[sel.Sel] == fv && i < len(s.Rhs) && len(s.Lhs) == len(s.Rhs) {
+						resolveExpr(fi, s.Rhs[i], 0)
+					}
+				}
+			}
+			return true
+		})
+	}
+	if !okAll || len(res) == 0 {
+		res = nil
+	}
+	p.fieldCache[fv] = res
 	return res
 }
